@@ -150,8 +150,10 @@ def main():
                 log("[%s] suite %s seed=%d: %d cases, harness %.1fs, corr mismatches=%d, monitor failures so far=%d"
                     % (pid, S["name"], sd, len(lines), th_, len(corr_here), len(monitor_fail)))
                 # search: correspondence or proofs broke but no failing input yet -> more seeds, monitors decide
-                if (corr_here or proofs_broken) and not monitor_fail and attempt == len(rounds) and attempt < 4 and not replay_req:
-                    rounds.append((sd + 1000 * attempt, nn * 2))
+                # (bounded: at most 2 extra rounds, at most 2000 cases each, and only while the time budget lasts)
+                if ((corr_here or proofs_broken) and not monitor_fail and attempt == len(rounds) and attempt < 3 and not replay_req
+                        and time.time() - t0 < float(os.environ.get("VERIF_SEARCH_BUDGET_S", "420"))):
+                    rounds.append((sd + 1000 * attempt, min(nn * 2, max(nn, 2000))))
     t_suites = time.time() - t_suites
 
     # 5. verdict ----------------------------------------------------------------------------------
